@@ -8,7 +8,9 @@ import Y0.Driver.Expr
 import Y0.Driver.Id
 import Y0.Driver.Latent
 import Y0.Driver.Cf
+import Y0.Driver.Ctf
 import Y0.Driver.Transport
+import Y0.Driver.Print
 
 open Y0 Y0.Driver
 
@@ -23,7 +25,9 @@ def dispatch (line : String) : String :=
       | "id" => handleId op args
       | "latent" => handleLatent op args
       | "cf" => handleCf op args
+      | "ctf" => handleCtf op args
       | "transport" => handleTransport op args
+      | "print" => handlePrint op args
       | _ => none
     match r with
     | some s => toString s
